@@ -15,6 +15,7 @@ the family trait method returns (a struct literal, or a call of the inherent `ne
     `v.reverse()`, `v.truncate(..)`, `v.retain(..)`).
 
 So every operand becomes a child, exactly once, at its own position."""
+from ..facts import base
 from .. import scan, families
 from . import flow
 
@@ -306,4 +307,4 @@ def run_family(ctx, M, units, rule, cfg):
         seen.add(u.member.adt)
         rule_children(ctx, M, u, rule)
         rule_stable(ctx, M, u, rule)
-    ctx.floor(rule, cfg, 2 * (13 if cfg == "core" else 14))
+    ctx.floor(rule, cfg, 2 * (13 if base(cfg) == "core" else 14))
